@@ -13,7 +13,8 @@ func init() {
 	register(&PropertySpec{
 		ID: "C03",
 		Explanation: "Structural necessary conditions of 'request frames are exactly what the protocol specifies', decided by a path-sensitive abstract interpretation of every frame builder for each protocol version 1-5 and every combination of its branch conditions (E6b): R1 every builder writes the header first with a constant request opcode of the specification, and every successful exit returns finish(); R3/R4/R6 on every path the sequence of protocol primitives written after the header equals the body the specification gives for that opcode, version and flags value (flags <=> fields, field order, field notation, version gating, custom payload iff the header flag); " +
-			"R5 the primitive writers are big-endian of the right width and use the right length prefixes (byte-order tables); R7 16-bit counts are not silently truncated; R8 the unset marker is decided on the unwrapped bound value; plus stream id provenance (=C01.R1).",
+			"R5 the primitive writers are big-endian of the right width and use the right length prefixes (byte-order tables); R7 16-bit counts are not silently truncated; R8 the unset marker is decided on the unwrapped bound value; plus stream id provenance (=C01.R1)." +
+			" R10 the length finish() patches into the header is computed from the buffer in its final (compressed) form, not from a value taken before the body was replaced.",
 		NotDecided: "byte equality of whole frames for all parameter values (needs an independent decoder run over generated requests); compression output; the semantic link between a flag bit and the option the caller set beyond 'field written iff flag set'.",
 		Rules: []*Rule{
 			{ID: "C03.R1", Floor: 16, Doc: "every builder: header first with the specification's opcode; success exits return finish()", Run: c03r1},
